@@ -51,9 +51,14 @@ def battery():
     return [f'{o}: {r}' for o, r in zip(TWIN_OPS, replay(TWIN_OPS)) if not r.get('same')]
 
 
+STR_K = 4
+
+
 def run(rep, tier):
+    global STR_K
+    STR_K = 4 if tier == 'quick' else 8
     prog = program(['conjure_object'])
-    rep.bounds['values'] = 'every integer width i8..i128 / u8..u128 at full bit width, bool, ASCII char, f32/f64 (all classes incl. every NaN payload), strings and byte strings of <= 4 bytes, unit, none/some; JSON number events u64/i64/f64'
+    rep.bounds['values'] = 'every integer width i8..i128 / u8..u128 at full bit width, bool, ASCII char, f32/f64 (all classes incl. every NaN payload), strings and byte strings of <= ' + str(STR_K) + ' bytes, unit, none/some; JSON number events u64/i64/f64'
     new = find_fn(prog, 'new', inpath='conjure_object::any::<impl')
     into = find_fn(prog, 'deserialize_into', inpath='conjure_object::any::<impl')
     ser_any = [k for k in find_fns(prog, 'serialize', inpath='conjure_object::any::ser::<impl') if ANY.split('::')[-1] in prog.fns[k].args[0][1] and 'AnySerializer' not in prog.fns[k].args[0][1]]
@@ -232,7 +237,7 @@ def run_strings(rep, prog, new, into, ser_fn):
     it = mk(prog)
     dec = Decider(rep, it)
     st = St()
-    ptr, s = sym_str(st, 's', 4)
+    ptr, s = sym_str(st, 's', STR_K)
     T = ('ref', False, ('path', 'str', ()))
     for s1, r1 in it.run(new, [ptr], st, {'T': T}):
         rep.states += 1
@@ -245,7 +250,7 @@ def run_strings(rep, prog, new, into, ser_fn):
             rep.states += 1
             back = it.payload(r2, 'Ok') if not is_abnormal(r2) else None
             bad = z3.BoolVal(True) if back is None else z3.Or(it.variant_of(r2, 'Err'), z3.Not(bstr_eq(back.fields[0], s)))
-            m = dec.decide('roundtrip:str', s2, bad, bytes=4)
+            m = dec.decide('roundtrip:str', s2, bad, bytes=STR_K)
             if m is not None:
                 txt = model_bytes(m, s)
                 op = {'op': 'any_json', 'doc': json.dumps(txt.decode('utf-8', 'replace'))}
